@@ -4,6 +4,7 @@ package daemon
 
 import (
 	"github.com/AliyunContainerService/terway/pkg/aliyun/client"
+	"github.com/AliyunContainerService/terway/rpc"
 	"github.com/AliyunContainerService/terway/types/daemon"
 )
 
@@ -16,3 +17,6 @@ func VerifGetPoolConfig(cfg *daemon.Config, daemonMode string, limit *client.Lim
 func VerifCheckInstance(limit *client.Limits, daemonMode string, config *daemon.Config) (bool, bool) {
 	return checkInstance(limit, daemonMode, config)
 }
+
+// VerifDefaultForNetConf exposes defaultForNetConf.
+func VerifDefaultForNetConf(netConf []*rpc.NetConf) error { return defaultForNetConf(netConf) }
